@@ -26,6 +26,9 @@ def DataFrame_head_decorators : List String := []
 /-- the signature of dataiter/data_frame.py: DataFrame.head: parameters in order, with the source text of their defaults -/
 def DataFrame_head_signature : List String := ["self", "n=None"]
 
+/-- the calls of dataiter/data_frame.py: DataFrame.head in the order Python makes them along the source text -/
+def DataFrame_head_call_order : List String := ["min", "np.arange", "self.slice"]
+
 /-- dataiter/data_frame.py: DataFrame.tail (sha256 of the function source: 6cbedf94d0ca7a46) -/
 def DataFrame_tail (truth : Term → Bool) (n_is_None : Bool) (dataiter_DEFAULT_PEEK_ROWS : Int) (self_nrow : Int) (n : Int) : Out :=
   if n_is_None then
@@ -42,6 +45,9 @@ def DataFrame_tail_decorators : List String := []
 /-- the signature of dataiter/data_frame.py: DataFrame.tail: parameters in order, with the source text of their defaults -/
 def DataFrame_tail_signature : List String := ["self", "n=None"]
 
+/-- the calls of dataiter/data_frame.py: DataFrame.tail in the order Python makes them along the source text -/
+def DataFrame_tail_call_order : List String := ["min", "np.arange", "self.slice"]
+
 /-- dataiter/data_frame.py: DataFrame._parse_rows_from_boolean (sha256 of the function source: 28fa19cce9bf339b) -/
 def DataFrame_parse_rows_from_boolean (truth : Term → Bool) (len_rows : Int) (self_nrow : Int) : Out :=
   let rows' : Term := (Term.app "Vector.fast" [(Term.sym "rows"), (Term.sym "bool")]);
@@ -55,6 +61,9 @@ def DataFrame_parse_rows_from_boolean_decorators : List String := []
 
 /-- the signature of dataiter/data_frame.py: DataFrame._parse_rows_from_boolean: parameters in order, with the source text of their defaults -/
 def DataFrame_parse_rows_from_boolean_signature : List String := ["self", "rows"]
+
+/-- the calls of dataiter/data_frame.py: DataFrame._parse_rows_from_boolean in the order Python makes them along the source text -/
+def DataFrame_parse_rows_from_boolean_call_order : List String := ["Vector.fast", "len", "ValueError", "np.nonzero", "Vector.fast"]
 
 /-- dataiter/data_frame.py: DataFrame.filter (sha256 of the function source: c45f431825ecd074) -/
 def DataFrame_filter (truth : Term → Bool) (rows_is_None : Bool) : Out :=
@@ -87,6 +96,9 @@ def DataFrame_filter_decorators : List String := ["deco.new_from_generator"]
 /-- the signature of dataiter/data_frame.py: DataFrame.filter: parameters in order, with the source text of their defaults -/
 def DataFrame_filter_signature : List String := ["self", "rows=None", "**colname_value_pairs"]
 
+/-- the calls of dataiter/data_frame.py: DataFrame.filter in the order Python makes them along the source text -/
+def DataFrame_filter_call_order : List String := ["callable", "rows", "Vector.fast", "Vector.fast([True], bool).repeat", "colname_value_pairs.items", "self._parse_rows_from_boolean", "self.items", "np.take"]
+
 /-- dataiter/data_frame.py: DataFrame.filter_out (sha256 of the function source: e11629f5d098ab96) -/
 def DataFrame_filter_out (truth : Term → Bool) (rows_is_None : Bool) : Out :=
   if (!rows_is_None) then
@@ -118,6 +130,9 @@ def DataFrame_filter_out_decorators : List String := ["deco.new_from_generator"]
 /-- the signature of dataiter/data_frame.py: DataFrame.filter_out: parameters in order, with the source text of their defaults -/
 def DataFrame_filter_out_signature : List String := ["self", "rows=None", "**colname_value_pairs"]
 
+/-- the calls of dataiter/data_frame.py: DataFrame.filter_out in the order Python makes them along the source text -/
+def DataFrame_filter_out_call_order : List String := ["callable", "rows", "Vector.fast", "Vector.fast([True], bool).repeat", "colname_value_pairs.items", "self._parse_rows_from_boolean", "self.items", "np.delete"]
+
 /-- dataiter/data_frame.py: DataFrame.slice (sha256 of the function source: 511154c3813eb735) -/
 def DataFrame_slice (truth : Term → Bool) (rows_is_None : Bool) (cols_is_None : Bool) : Out :=
   let rows' : Term := (if rows_is_None then (Term.app "np.arange" [(Term.app ".nrow" [(Term.sym "self")])]) else (Term.sym "rows"));
@@ -132,6 +147,9 @@ def DataFrame_slice_decorators : List String := ["deco.new_from_generator"]
 
 /-- the signature of dataiter/data_frame.py: DataFrame.slice: parameters in order, with the source text of their defaults -/
 def DataFrame_slice_signature : List String := ["self", "rows=None", "cols=None"]
+
+/-- the calls of dataiter/data_frame.py: DataFrame.slice in the order Python makes them along the source text -/
+def DataFrame_slice_call_order : List String := ["np.arange", "np.arange", "self._parse_rows_from_integer", "self._parse_cols_from_integer", "self[colname][rows].copy"]
 
 /-- dataiter/data_frame.py: DataFrame.slice_off (sha256 of the function source: f6a15670316a4411) -/
 def DataFrame_slice_off (truth : Term → Bool) (rows_is_None : Bool) (cols_is_None : Bool) : Out :=
@@ -148,6 +166,9 @@ def DataFrame_slice_off_decorators : List String := ["deco.new_from_generator"]
 /-- the signature of dataiter/data_frame.py: DataFrame.slice_off: parameters in order, with the source text of their defaults -/
 def DataFrame_slice_off_signature : List String := ["self", "rows=None", "cols=None"]
 
+/-- the calls of dataiter/data_frame.py: DataFrame.slice_off in the order Python makes them along the source text -/
+def DataFrame_slice_off_call_order : List String := ["self._parse_rows_from_integer", "self._parse_cols_from_integer", "enumerate", "np.delete"]
+
 /-- dataiter/data_frame.py: DataFrame.drop_na (sha256 of the function source: 16b3ee3bca8991c0) -/
 def DataFrame_drop_na (truth : Term → Bool) : Out :=
   let drop' : Term := (Term.app ".repeat" [(Term.app "Vector.fast" [(Term.app "list" [(Term.sym "False")]), (Term.sym "bool")]), (Term.app ".nrow" [(Term.sym "self")])]);
@@ -160,6 +181,9 @@ def DataFrame_drop_na_decorators : List String := []
 
 /-- the signature of dataiter/data_frame.py: DataFrame.drop_na: parameters in order, with the source text of their defaults -/
 def DataFrame_drop_na_signature : List String := ["self", "*colnames"]
+
+/-- the calls of dataiter/data_frame.py: DataFrame.drop_na in the order Python makes them along the source text -/
+def DataFrame_drop_na_call_order : List String := ["Vector.fast", "Vector.fast([False], bool).repeat", "self[colname].is_na", "self.filter_out"]
 
 /-- dataiter/data_frame.py: DataFrame.unique (sha256 of the function source: 6a3c24bcd387b834) -/
 def DataFrame_unique (truth : Term → Bool) : Out :=
@@ -178,5 +202,8 @@ def DataFrame_unique_decorators : List String := ["deco.new_from_generator"]
 
 /-- the signature of dataiter/data_frame.py: DataFrame.unique: parameters in order, with the source text of their defaults -/
 def DataFrame_unique_signature : List String := ["self", "*colnames"]
+
+/-- the calls of dataiter/data_frame.py: DataFrame.unique in the order Python makes them along the source text -/
+def DataFrame_unique_call_order : List String := ["enumerate", "column.is_datetime", "column.is_float", "column.is_timedelta", "column.is_na", "np.where", "zip", "list", "set", "range", "seen.add", "keep.append", "self.items", "column[keep].copy"]
 
 end DI.Gen
